@@ -1,6 +1,7 @@
 package main
 
 import (
+	"fmt"
 	"go/ast"
 	"go/token"
 	"go/types"
@@ -169,6 +170,111 @@ func postParseFuncs(p *Prog) ([]*ssa.Function, map[*ssa.Function]*ssa.Function) 
 	return out, parent
 }
 
+// guards of path-sensitive exceptions: a structural check of the invariant the reason relies on
+var c09FrozenGuards = map[string]func(p *Prog) string{
+	"linker.mergeAdjacentLocalStmts [].js_ast.Stmt.Data.(js_ast.SLocal).js_ast.SLocal.Decls": c09GuardMergeFlag,
+}
+
+// c09GuardMergeFlag: in mergeAdjacentLocalStmts the in-place append into the previous statement's
+// Decls is guarded by a loop-carried flag meaning "stmts[end-1] is the clone made by this function".
+// The invariant holds iff, at the loop header, every incoming edge on which the write index `end`
+// advances (a new, uncloned statement becomes stmts[end-1]) resets the flag to the constant false,
+// and the flag is only ever set to true in the block that stores a freshly allocated SLocal.
+func c09GuardMergeFlag(p *Prog) string {
+	fn := p.FindFunc("linker.mergeAdjacentLocalStmts")
+	if fn == nil {
+		return "linker.mergeAdjacentLocalStmts not found"
+	}
+	// the in-place append: a store to <SLocal>.Decls whose SLocal is not a fresh Alloc
+	var flag *ssa.Phi
+	eachInstr(fn, func(b *ssa.BasicBlock, in ssa.Instruction) {
+		st, ok := in.(*ssa.Store)
+		if !ok {
+			return
+		}
+		fa, ok := st.Addr.(*ssa.FieldAddr)
+		if !ok || fieldAddrName(fa) != "Decls" {
+			return
+		}
+		if _, fresh := fa.X.(*ssa.Alloc); fresh {
+			return
+		}
+		// the flag: the bool phi tested on the way into this block
+		for _, f := range factsAt(b) {
+			if ph, ok := f.Cond.(*ssa.Phi); ok && f.True {
+				flag = ph
+			}
+		}
+	})
+	if flag == nil {
+		return "no loop-carried flag guards the in-place append into the previous statement's Decls"
+	}
+	header := flag.Block()
+	// the write index: an int phi at the same header that some incoming edge advances
+	var idx *ssa.Phi
+	for _, in := range header.Instrs {
+		ph, ok := in.(*ssa.Phi)
+		if !ok {
+			break
+		}
+		if ph == flag {
+			continue
+		}
+		advances := false
+		for _, e := range ph.Edges {
+			if bo, ok := e.(*ssa.BinOp); ok && bo.Op == token.ADD && bo.X == ssa.Value(ph) {
+				advances = true
+			}
+		}
+		// ... and that addresses the slot a statement is stored into (stmts[end] = stmt)
+		storesAt := false
+		if advances && ph.Referrers() != nil {
+			for _, rf := range *ph.Referrers() {
+				if ia, ok := rf.(*ssa.IndexAddr); ok && ia.Index == ssa.Value(ph) && ia.Referrers() != nil {
+					for _, rr := range *ia.Referrers() {
+						if st, ok := rr.(*ssa.Store); ok && st.Addr == ssa.Value(ia) {
+							storesAt = true
+						}
+					}
+				}
+			}
+		}
+		if advances && storesAt {
+			idx = ph
+		}
+	}
+	if idx == nil {
+		return "write index not found at the loop header"
+	}
+	for i, pred := range header.Preds {
+		fv := flag.Edges[i]
+		advanced := idx.Edges[i] != ssa.Value(idx)
+		if _, isInit := idx.Edges[i].(*ssa.Const); isInit {
+			advanced = true
+		}
+		if advanced && !isConstBool(fv, false) {
+			return fmt.Sprintf("on the edge from block %d the write index advances (an uncloned statement becomes the previous one) but the flag is not reset to false: the next merge appends into a statement of the shared, cached AST", pred.Index)
+		}
+		if isConstBool(fv, true) {
+			// must be the block that stores a fresh clone
+			fresh := false
+			for _, in := range pred.Instrs {
+				if st, ok := in.(*ssa.Store); ok {
+					if mi, ok := st.Val.(*ssa.MakeInterface); ok {
+						if _, isAlloc := mi.X.(*ssa.Alloc); isAlloc {
+							fresh = true
+						}
+					}
+				}
+			}
+			if !fresh {
+				return fmt.Sprintf("the flag is set in block %d without a freshly allocated statement being stored", pred.Index)
+			}
+		}
+	}
+	return ""
+}
+
 func c09Frozen(p *Prog) *RuleResult {
 	r := NewRule("C09/R2 frozen-ast", "post-parse code stores only into AST memory that was cloned for this build (cached ASTs are immutable and shared between builds and between parallel linkers)")
 	fns, parent := postParseFuncs(p)
@@ -192,6 +298,12 @@ func c09Frozen(p *Prog) *RuleResult {
 		if s.state == "fresh" {
 			r.OK(key, true, s.why)
 			continue
+		}
+		if g, ok := c09FrozenGuards[key]; ok {
+			if why := g(p); why != "" {
+				r.Fail(key, p.Pos(s.pos), "the reviewed reason for this store into shared AST memory no longer holds: "+why)
+				continue
+			}
 		}
 		if r.CheckExc(c09FrozenExceptions, key) {
 			continue
